@@ -649,6 +649,25 @@ def rule_invariant_survives_rebind(ctx, px, summaries, seeds):
                    f"`{r.what[:80]}` relies on the constructor's minimum-size invariant, but {rebinders[0].name} re-binds self._buffer to the decompressed payload "
                    f"(any size, even empty) and {fi.name} does not refuse to run after that (`assert self._decompressed == 0`): out-of-bounds read, interpreter crash")
     ctx.anchor(n_reb >= 2, f"functions re-binding the input buffer ({n_reb})")
+    # those refusals are `assert` statements: they exist in the binary only while Cython assertions are compiled in
+    import glob
+    import os
+    import re
+    hits = []
+    files = glob.glob(os.path.join(ctx.repo.root, PKG, "*.pyx")) + glob.glob(os.path.join(ctx.repo.root, PKG, "*.pxd")) + glob.glob(os.path.join(ctx.repo.root, PKG, "*.pxi")) + \
+        [os.path.join(ctx.repo.root, f) for f in ("setup.py", "setup.cfg", "pyproject.toml", "Makefile")]
+    n_files = 0
+    for f in files:
+        if not os.path.exists(f):
+            continue
+        n_files += 1
+        for i, line in enumerate(open(f, errors="replace"), 1):
+            if re.search(r"CYTHON_WITHOUT_ASSERTIONS|-DNDEBUG\b.*assert|cython:.*\bassert", line):
+                hits.append(f"{os.path.relpath(f, ctx.repo.root)}:{i}")
+    ctx.anchor(n_files >= 4, f"Cython sources / build files scanned for assertion switches ({n_files})")
+    ctx.rep.ob(R, f"{PKG}/ build configuration", "build|assertions-compiled-in", not hits,
+               f"{hits[:3]}: Cython assertions are compiled out, and with them the `assert self._decompressed == 0` guards of validate_crc(): after iteration it "
+               "checksums `len - k` bytes of a re-bound, possibly shorter buffer (out-of-bounds read, interpreter crash)")
 
 
 def rule_index_nonneg(ctx, px, summaries, seeds):
